@@ -69,6 +69,7 @@ EXP void verif_heartbeat(struct reb_simulation* r){
 /* a heartbeat that updates the simulation in two phases (as a user heartbeat doing accretion or removing escapers does): between the phases the
  * state is not a step-boundary state. The mass of the last particle is disturbed and put back bit for bit, with some work in between so that the
  * scheduler gets pre-emption points inside the window. The integration loop must keep this invisible to served snapshots. */
+extern void verif_yield_point(void) __attribute__((weak));    /* sched variant only: this file is not compiled with trace-pc, so the window needs explicit pre-emption points */
 EXP void verif_heartbeat_twophase(struct reb_simulation* r){
     verif_heartbeat(r);
     const int N = r->N - r->N_var;
@@ -76,7 +77,7 @@ EXP void verif_heartbeat_twophase(struct reb_simulation* r){
     const double old = r->particles[N-1].m;
     r->particles[N-1].m = old * 1.5 + 1e-3;
     volatile double sink = 0.;
-    for (int i = 0; i < 64; i++){ sink += r->particles[i % N].x * 1e-300; }
+    for (int i = 0; i < 12; i++){ sink += r->particles[i % N].x * 1e-300; if (verif_yield_point) verif_yield_point(); }
     r->particles[N-1].m = old;
 }
 
